@@ -225,7 +225,8 @@ def main(argv):
         if ctx.error:
             broken.append(ctx.error)
         probs, counts = floors_ok(mod, ctx)
-        if not ctx.error:
+        # a rule that reports a violation may stop enumerating its dependent instances: floors are only meaningful on a clean run
+        if not ctx.error and not any(r['status'] == 'violation' for r in ctx.results):
             broken += probs
         if tier == 'thorough':
             # alternative preprocessor configurations the module asks for
